@@ -5,7 +5,7 @@
                 [fixed] = all repairs on (the /repo HEAD), [pinned] = the original tree 8f3c295. *)
 From Coq Require Import List NArith Bool Arith Lia.
 From CC Require Import Policy Structure Keys KeysMachine DisabledProofs
-                       KInv1 KInv2 KInv3 KInv5 KInv6 KInv7 KInv8 KInv9 KInv10.
+                       KInv1 KInv2 KInv3 KInv4 KInv4b KInv5 KInv6 KInv7 KInv8 KInv9 KInv10.
 Import ListNotations.
 Local Open Scope N_scope.
 
@@ -169,6 +169,18 @@ Theorem C05_prune_then_refresh s p rs k keep : reach s -> usk_rights fixed (m_st
     exists fl sk older, rlookup r (m_secrets (st_msk s)) = Some ((fl, sk) :: older) /\ ch = [sk].
 Proof. exact (prune_then_refresh s p rs k keep). Qed.
 
+(* non-vacuity of deleted_right_unusable and refresh_opens_current: D::a is deleted, the key loses right [0] at the next
+   refresh, and still opens an encapsulation for D::b made under the current public key *)
+Definition hist_del : list op :=
+  [OSetup; OAddAnarchy sD; OAddAttr sD sa false None; OAddAttr sD sb true None; OUpdate; OKeygen sDaorb; ODelAttr sD sa; OUpdate].
+Example deleted_right_nonvacuous :
+  let s := run_state fixed init hist_del in
+  rlookup [0] (m_secrets (st_msk s)) = None /\
+  option_map (fun u => map fst (u_chains u)) (nth_error (st_usks s) 0) = Some [[0]; []; [1]] /\
+  snd (run fixed s [ORefresh 0 true; OEncaps 2 sDb; ODecaps 0 0]) = [ObOk; ObOk; ObSome 4] /\
+  option_map (fun u => map fst (u_chains u)) (nth_error (st_usks (fst (step fixed s (ORefresh 0 true)))) 0) = Some [[]; [1]].
+Proof. vm_compute. repeat split; reflexivity. Qed.
+
 (* C05 is false on the pinned tree (F4): the pruned secret (token 1 of right [0]) survives refresh(keep) *)
 Definition hist_C05_pinned : list op :=
   [OSetup; OAddAnarchy sD; OAddAttr sD sa false None; OUpdate; OKeygen sDa; ORekey sDa; OPrune sDa; ORefresh 0 true].
@@ -178,6 +190,40 @@ Theorem C05_pinned_refuted :
   option_map (fun u => rlookup [0] (u_chains u)) (nth_error (st_usks sp) 0) = Some (Some [{| tok := 4; s_hyb := false |}; {| tok := 1; s_hyb := false |}]) /\
   option_map (fun u => rlookup [0] (u_chains u)) (nth_error (st_usks sf) 0) = Some (Some [{| tok := 4; s_hyb := false |}]).
 Proof. vm_compute. repeat split; reflexivity. Qed.
+
+(* ================================================================ C06 *)
+(* the structure of every reachable state is well formed (unique names and ids, ids below next_id): C03 on the machine *)
+Theorem C06_wfb_reach : forall s, reach s -> WfProofs.wfb (m_st (st_msk s)).
+Proof. exact wfb_reach. Qed.
+(* no operation re-enables an attribute, and its id is never given to another attribute (until the next OSetup) *)
+Theorem C06_no_reenable s o a : is_setup o = false -> a < next_id (m_st (st_msk s)) -> disabled_id (m_st (st_msk s)) a ->
+  disabled_id (m_st (st_msk (fst (step fixed s o)))) a /\ a < next_id (m_st (st_msk (fst (step fixed s o)))).
+Proof. exact (no_reenable s o a). Qed.
+(* [~ In OSetup ops2]: OSetup creates a brand-new authority (structure, ids, snapshot list restart);
+   KInv4b.disabled_never_published_setup_needed shows the statement fails without it *)
+Theorem C06_disabled_never_published ops1 d n ops2 a :
+  let s1 := run_state fixed init ops1 in
+  let s2 := fst (step fixed s1 (ODisable d n)) in
+  let s  := run_state fixed init (ops1 ++ [ODisable d n; OUpdate] ++ ops2) in
+  attr_id_of (m_st (st_msk s1)) d n = Some a ->
+  snd (step fixed s1 (ODisable d n)) = ObOk -> snd (step fixed s2 OUpdate) = ObOk ->
+  ~ In OSetup ops2 ->
+  forall j pk, (length (st_mpks s2) <= j)%nat -> nth_error (st_mpks s) j = Some pk ->
+    (forall r sk, In (r, sk) (p_keys pk) -> ~ In a r) /\
+    (forall p rs r, enc_rights fixed (p_st pk) p = ROk rs -> In r rs -> In a r -> snd (step fixed s (OEncaps j p)) = ObErr).
+Proof. exact (disabled_never_published ops1 d n ops2 a). Qed.
+Theorem C06_disabled_still_decrypts s d n :
+  let s1 := fst (step fixed s (ODisable d n)) in
+  let s2 := fst (step fixed s1 OUpdate) in
+  (st_usks s1 = st_usks s /\ st_encs s1 = st_encs s /\ st_mpks s1 = st_mpks s /\ st_ctr s1 = st_ctr s /\
+   m_secrets (st_msk s1) = m_secrets (st_msk s) /\ m_users (st_msk s1) = m_users (st_msk s)) /\
+  (st_usks s2 = st_usks s /\ st_encs s2 = st_encs s /\
+   forall r ch, rlookup r (m_secrets (st_msk s)) = Some ch -> rmem r (omega_map (m_st (st_msk s1))) = true ->
+     exists ch', rlookup r (m_secrets (st_msk s2)) = Some ch' /\
+       map (fun p : bool * secret => tok (snd p)) ch' = map (fun p : bool * secret => tok (snd p)) ch /\ tl ch' = tl ch) /\
+  forall k e, snd (step fixed s2 (ODecaps k e)) = snd (step fixed s (ODecaps k e)).
+Proof. exact (disabled_still_decrypts s d n). Qed.
+(* C06_pinned_refuted (the pinned rekey re-activates a disabled right, F5): see KInv4b *)
 
 (* ================================================================ C09 *)
 Theorem C09_refresh_issued_ok s k keep : reach s -> (k < length (st_usks s))%nat -> snd (step fixed s (ORefresh k keep)) = ObOk.
@@ -324,6 +370,11 @@ Print Assumptions C05_pruned_secret_unusable.
 Print Assumptions C05_deleted_right_unusable.
 Print Assumptions C05_prune_then_refresh.
 Print Assumptions C05_pinned_refuted.
+Print Assumptions C06_wfb_reach.
+Print Assumptions C06_no_reenable.
+Print Assumptions C06_disabled_never_published.
+Print Assumptions C06_disabled_still_decrypts.
+Print Assumptions C06_pinned_refuted.
 Print Assumptions C09_refresh_ok_iff.
 Print Assumptions C09_update_ok_iff.
 Print Assumptions C09_update_err_iff.
